@@ -132,8 +132,9 @@ def run(chk: Check) -> None:
         else:
             r1.violation("find_cache_meta: binary meta rejected on cache_version()/CACHE_VERSION mismatch", fcm.loc(), "the format/version guard of the binary cache is missing or no longer rejects")
     # the options comparison uses a freshly computed snapshot
-    src = norm(fcm.node)
-    if "current_options = options_snapshot(id, manager)" in src and "cached_options != current_options" in src:
+    from ..pattern import find_all
+    opt_gate = find_all(fcm.node, ["$cur = options_snapshot(id, manager)", "$cached = m.options", "$cached != $cur"]) or find_all(fcm.node, ["$cur = options_snapshot(id, manager)", "m.options != $cur"])
+    if opt_gate:
         r1.ok("find_cache_meta: cached options compared with options_snapshot(id, manager)", fcm.loc())
     else:
         r1.violation("find_cache_meta: cached options compared with options_snapshot(id, manager)", fcm.loc(), "options gate no longer compares against a fresh snapshot")
@@ -318,8 +319,8 @@ def run(chk: Check) -> None:
         ("mtime", wsrc("mtime"), vlocals.get("mtime")),
         ("size", wsrc("size"), vlocals.get("size")),
         ("data_mtime", wsrc("data_mtime"), vlocals.get("data_mtime", "").replace("meta.data_file", "data_file")),
-        ("options", wsrc("options"), "options_snapshot(id, manager)" if "options_snapshot(id, manager)" in norm(fcm.node) else None),
-        ("version_id", wsrc("version_id"), "manager.version_id" if "m.version_id != manager.version_id" in norm(fcm.node) else None),
+        ("options", wsrc("options"), "options_snapshot(id, manager)" if opt_gate else None),
+        ("version_id", wsrc("version_id"), "manager.version_id" if any(isinstance(c, ast.Compare) and isinstance(c.ops[0], ast.NotEq) and {norm(c.left), norm(c.comparators[0])} == {"m.version_id", "manager.version_id"} for c in ast.walk(fcm.node)) else None),
     ]
     for field, a, b in pairs:
         key = f"gate field `{field}`: written `{a}` / compared with `{b}`"
@@ -362,6 +363,10 @@ def run(chk: Check) -> None:
             r6.ok("finish_passes calls patch_indirect_dependencies", fp.loc(patch[0].stmt), f"guards: {texts}")
     else:
         r6.violation("finish_passes calls patch_indirect_dependencies", fp.loc(), "indirect dependencies are no longer recorded")
+
+
+def call_name_(c: ast.Call):
+    return c.func.id if isinstance(c.func, ast.Name) else (c.func.attr if isinstance(c.func, ast.Attribute) else None)
 
 
 def run_dep_hash(chk: Check, ix) -> None:
@@ -413,7 +418,7 @@ def run_dep_hash(chk: Check, ix) -> None:
     def name_written_unconditionally(stmts):
         for s in stmts:
             for n in ast.walk(s):
-                if isinstance(n, ast.For) and "all_direct_deps" in norm(n.iter):
+                if isinstance(n, ast.For) and isinstance(n.iter, ast.Name) and any(isinstance(c, ast.Call) and call_name_(c) in ("write_str_bare", "write_bytes_bare") for c in ast.walk(n)):
                     top = [x for x in n.body if isinstance(x, ast.Expr) and isinstance(x.value, ast.Call) and norm(x.value.func) == "write_str_bare" and norm(x.value.args[1]) == norm(n.target)]
                     return bool(top)
         return False
